@@ -20,6 +20,8 @@ def task_functions(definition):
                 r = s.get("Resource", "")
                 if isinstance(r, str) and r.startswith("arn:aws:rpcmessage:"):
                     out.append(r.rsplit(":", 1)[-1])
+                elif isinstance(r, str) and ":rpcmessage:invoke" in r and isinstance(s.get("Parameters"), dict) and isinstance(s["Parameters"].get("FunctionName"), str):
+                    out.append(s["Parameters"]["FunctionName"].rsplit(":", 1)[-1])
             for b in s.get("Branches") or []:
                 if isinstance(b, dict):
                     walk(b)
